@@ -32,6 +32,7 @@
 import PyTealV.Proofs.C02GenProg
 import PyTealV.Proofs.C02GenSpill
 import PyTealV.Proofs.C02GenPres
+import PyTealV.Proofs.C02GenValid
 namespace PyTealV.Proofs.C02Gen
 open PyTealV PyTealV.Avm PyTealV.Src PyTealV.Comp PyTealV.Models.Fragment PyTealV.Models.FragmentR
 open PyTealV.Check (isSimple)
@@ -95,19 +96,113 @@ theorem frameProvider_of_progOK {P : PCtx} (hP : ProgOK P) : FrameProvider P := 
   have hpresent := fun (h : ∃ f0, cur = some f0) => h
   cases hR with
   | main _ _ _ _ _ _ => exact frame_nospill (by simp [mainCfg]) (fun x hx => by cases hx) hb
-  | @sub f0 sd fr cs' hpg hfp hsd hr0 hcs hpr hign hinv hdev =>
-    exact frame_of_sub (hP f0 sd hsd (RoutOK.present (.sub hpg hfp hsd hr0 hcs hpr hign hinv hdev))) hsd hign hb hlen
-  | @subFp f0 sd fr cs' st0 σc hpg hfp hsd hr0 hcs hpr hbase hl0 hh hign hinv hdev =>
-    exact frame_of_sub (hP f0 sd hsd (RoutOK.present (.subFp hpg hfp hsd hr0 hcs hpr hbase hl0 hh hign hinv hdev)))
+  | @sub f0 sd fr cs' hpg hfp hsd hr0 hcs hpr hign hinv hdev hprot hact =>
+    exact frame_of_sub (hP f0 sd hsd (RoutOK.present (.sub hpg hfp hsd hr0 hcs hpr hign hinv hdev hprot hact))) hsd hign hb hlen
+  | @subFp f0 sd fr cs' st0 σc hpg hfp hsd hr0 hcs hpr hbase hl0 hh hign hinv hdev hprot =>
+    exact frame_of_sub (hP f0 sd hsd (RoutOK.present (.subFp hpg hfp hsd hr0 hcs hpr hbase hl0 hh hign hinv hdev hprot)))
       hsd hign hb hlen
 
-/-- scratch-slot convention: activations carry no invariant on the source world -/
-theorem callInv_scratch {P : PCtx} (hfp : P.fp = false) : CallInv P := by
-  intro X cfg K cur hR f sd st w1 fuel r3 w3 _ _ _ _ _
+/-- scratch-slot convention without the by-reference discipline: activations carry no invariant on
+    the source world -/
+theorem callInv_scratch {P : PCtx} (hfp : P.fp = false) (hs : P.strict = false) : CallInv P := by
+  intro X cfg K cur hR f sd st w1 fuel r3 w3 _ _ _ _ _ _
+  have hsref : P.sref = false := by simp [PCtx.sref, hs]
   cases hR with
-  | main _ _ _ hinv => rw [hinv]; trivial
-  | sub _ _ _ _ _ _ _ hinv => rw [hinv]; trivial
+  | main _ _ _ hinv => rw [hinv, PCtx.vinv, hsref]; trivial
+  | sub _ _ _ _ _ _ _ hinv => rw [hinv, PCtx.vinv, hsref]; trivial
   | subFp _ hfp' => rw [hfp] at hfp'; cases hfp'
+
+/-- outside the by-reference discipline the callee's invariant holds at its entry by construction -/
+theorem callEntry_plain {P : PCtx} (hP : ProgOK P) (hs : P.sref = false) : CallEntry P := by
+  intro X cfg K cur hR f sd args bc rc n st w w1 fuel hsd hpres _ hlen _ _
+  unfold calleeInv
+  cases hfp : P.fp with
+  | false => simp only [Bool.false_eq_true, if_false, PCtx.vinv, hs]; trivial
+  | true => simp only [if_true]; exact pInv_bindW hlen (hP f sd hsd hpres).pnodup
+
+theorem vinv_nil (P : PCtx) (w : World) : P.vinv [] w := by
+  unfold PCtx.vinv
+  split
+  · intro f hf; cases hf
+  · trivial
+
+/-! ### the by-reference discipline (stage 3): `CallInv` and `CallEntry` from `valid_all` -/
+
+/-- a declared routine has a graph -/
+def PresentT (P : PCtx) (g : Nat) : Prop := ∀ sd, findSub P.p g = some sd → Present P g
+
+theorem valCtx_of {P : PCtx}
+    (hsubs : ∀ f sd, findSub P.p f = some sd → Present P f → subOkC false P.p sd P.dyn true = true)
+    (hcl : ∀ f sd, findSub P.p f = some sd → Present P f → ∀ g, g ∈ callsOf sd.body → PresentT P g) :
+    ValCtx P.p P.dyn (PresentT P) := by
+  refine ⟨fun g hT sd hsd => ?_⟩
+  have hpres := hT sd hsd
+  have hok := hsubs g sd hsd hpres
+  simp only [subOkC, Bool.and_eq_true, Bool.not_true, Bool.false_or, List.all_eq_true, Bool.not_eq_true',
+    List.contains_eq_mem, decide_eq_false_iff_not] at hok
+  exact ⟨hok.1.1.1.1.1.1.1.1, hcl g sd hsd hpres, nodupB_nodup _ hok.1.1.1.1.1.1.2, hok.2⟩
+
+theorem kv_of {P : PCtx} (hs : P.sref = true) (hmain : ∀ g, g ∈ callsOf P.p.main → PresentT P g)
+    (hcl : ∀ f sd, findSub P.p f = some sd → Present P f → ∀ g, g ∈ callsOf sd.body → PresentT P g)
+    {X cfg K cur} (hR : RoutOK P X cfg K cur) : KV P.p (PresentT P) X.act K := by
+  obtain ⟨hstr, hfp⟩ := P.sref_iff.mp hs
+  have hpres := fun f (h : cur = some f) => RoutOK.present (h ▸ hR)
+  cases hR with
+  | main =>
+    rw [hstr, hfp]
+    exact ⟨rfl, rfl, rfl, rfl, rfl, ⟨_, rfl, hmain⟩, fun v hv => by cases hv⟩
+  | @sub f sd fr cs' _ _ hsd _ _ _ _ _ _ _ hact =>
+    rw [hstr, hfp]
+    exact ⟨rfl, rfl, rfl, rfl, rfl, ⟨_, rfl, hcl f sd hsd (hpres f rfl)⟩, fun v hv => ⟨f, sd, hact, hsd, hv⟩⟩
+  | subFp _ hfp' => rw [hfp] at hfp'; cases hfp'
+
+theorem inv_eq_vset {P : PCtx} (hs : P.sref = true) {X cfg K cur} (hR : RoutOK P X cfg K cur) :
+    X.inv = VSet P.p X.act := by
+  obtain ⟨hstr, hfp⟩ := P.sref_iff.mp hs
+  cases hR with
+  | main _ _ _ hinv => rw [hinv, PCtx.vinv, hs]; rfl
+  | sub _ _ _ _ _ _ _ hinv => rw [hinv, PCtx.vinv, hs]; rfl
+  | subFp _ hfp' => rw [hfp] at hfp'; cases hfp'
+
+theorem calleeInv_eq_vset {P : PCtx} (hs : P.sref = true) (X : MCtx) (f : Nat) (sd : SubDef) (st : List Val) :
+    calleeInv P X f sd st = VSet P.p (f :: X.act) := by
+  obtain ⟨hstr, hfp⟩ := P.sref_iff.mp hs
+  unfold calleeInv
+  rw [hfp, PCtx.vinv, hs]
+  rfl
+
+/-- by-reference discipline: the reference cells of the caller's active set are valid again after
+    the call (the callee only wrote through valid references) -/
+theorem callInv_ref {P : PCtx} (hs : P.sref = true) (hC : ValCtx P.p P.dyn (PresentT P))
+    (hkv : ∀ X cfg K cur, RoutOK P X cfg K cur → KV P.p (PresentT P) X.act K) : CallInv P := by
+  intro X cfg K cur hR f sd st w1 fuel r3 w3 hsd hallow hlen hev hinv hentry
+  rw [inv_eq_vset hs hR] at hinv ⊢
+  rw [calleeInv_eq_vset hs] at hentry
+  obtain ⟨l, hl, hlT⟩ := (hkv X cfg K cur hR).calls
+  unfold callAllowed at hallow
+  rw [hl] at hallow
+  have hT : PresentT P f := hlT f (by simpa using hallow)
+  obtain ⟨hwtb, hcallsb, _, _⟩ := hC.body f hT sd hsd
+  have hKb : KV P.p (PresentT P) (f :: X.act) (subK false P.p sd P.dyn true) :=
+    ⟨rfl, rfl, rfl, rfl, rfl, ⟨_, rfl, hcallsb⟩, fun v hv => ⟨f, sd, List.mem_cons_self .., hsd, hv⟩⟩
+  have h3 := (valid_all (cx := P.cx) hC fuel).ev (some f) sd.body _ r3 w3 _ false true _ _ hKb hwtb hev hentry
+  exact vset_restore hinv (h3.sub (fun g hg => List.mem_cons_of_mem _ hg))
+
+/-- by-reference discipline: what a call passes for a by-reference parameter is a valid reference -/
+theorem callEntry_ref {P : PCtx} (hs : P.sref = true) (hC : ValCtx P.p P.dyn (PresentT P))
+    (hkv : ∀ X cfg K cur, RoutOK P X cfg K cur → KV P.p (PresentT P) X.act K) : CallEntry P := by
+  intro X cfg K cur hR f sd args bc rc n st w w1 fuel hsd hpres hw hlen hev hinv
+  rw [inv_eq_vset hs hR] at hinv
+  rw [calleeInv_eq_vset hs]
+  have hK := hkv X cfg K cur hR
+  have hw0 := hw
+  simp only [wtR, Bool.and_eq_true] at hw
+  obtain ⟨l, hl, hlT⟩ := hK.calls
+  have hallow := hw.1.1.2
+  rw [hl] at hallow
+  have hT : PresentT P f := hlT f (by simpa using hallow)
+  obtain ⟨_, _, hpnd, hvals⟩ := hC.body f hT sd hsd
+  exact valid_entry (valid_all (cx := P.cx) hC fuel) hK hw0 hsd hpnd hvals hev hlen hinv
 
 /-! ### the whole program -/
 
@@ -145,12 +240,13 @@ variable {P : PCtx} {w0 : World}
 
 /-- the main routine with the empty call stack -/
 def X0 (P : PCtx) : MCtx :=
-  { Pg := P.Pg, r := none, cs := [], G := P.Pg.main, hG := rfl, ign := P.ign, dev := P.dev, devOvf := P.dev_ovf }
+  { Pg := P.Pg, r := none, cs := [], G := P.Pg.main, hG := rfl, ign := P.ign, inv := P.vinv [], prot := P.prot,
+    dev := P.dev, devOvf := P.dev_ovf }
 
 theorem outVP_of_haltO {s : Nat} {v : Val} {w' : World} (hs : s = P.Pg.start)
     (h : HaltO P.cx (X0 P) ⟨s, 0⟩ ⟨[], [], [], w0⟩ (retOut v w')) : OutVP P.dev P.ign P.cx P.Pg w0 v w' := by
   subst hs
-  rcases h w0 (SameW.refl _ _) trivial (Nat.zero_le _) with ⟨f, hd, n, hn⟩ | ⟨o', ho, n, hn⟩
+  rcases h w0 (SameW.refl _ _) (vinv_nil P w0) (Nat.zero_le _) with ⟨f, hd, n, hn⟩ | ⟨o', ho, n, hn⟩
   · cases v with
     | u x => exact ⟨n, .inr ⟨f, hd, hn⟩⟩
     | b x => exact ⟨n, _, hn⟩
@@ -166,28 +262,28 @@ theorem outVP_of_haltO {s : Nat} {v : Val} {w' : World} (hs : s = P.Pg.start)
 theorem failsP_of_fails {s : Nat} (hs : s = P.Pg.start)
     (h : Fails P.cx (X0 P) ⟨s, 0⟩ ⟨[], [], [], w0⟩) : FailsP P.cx P.Pg w0 := by
   subst hs
-  obtain ⟨f, n, hn⟩ := h w0 (SameW.refl _ _) trivial (Nat.zero_le _)
+  obtain ⟨f, n, hn⟩ := h w0 (SameW.refl _ _) (vinv_nil P w0) (Nat.zero_le _)
   exact ⟨n, f, hn⟩
 
 end
 
 /-- the program graph matches every result of the source evaluation of the main tree -/
-theorem main_graph_of (P : PCtx) (hP : ProgOK P) (hC : CallPresent P) (hI : CallInv P)
+theorem main_graph_of (P : PCtx) (hP : ProgOK P) (hC : CallPresent P) (hI : CallInv P) (hEnt : CallEntry P)
     (hmain : P.Pg.main[0]? = some ({} : Block) ∧
       ShapeR P.Pg.main { version := P.version, inSub := false, callees := calleesOf P.p, markIndex := false }
         (if hasReturn P.p.main then P.p.main else .ret (some P.p.main)) P.Pg.start 0 none)
-    (hwm : mainOkC P.fp P.p P.dyn = true)
+    (hwm : mainOkC P.fp P.p P.dyn P.strict = true)
     (w0 : World) (fuel : Nat) {r : Res} {w' : World}
     (hev : eval ⟨P.cx, P.p, none⟩ fuel P.p.main w0 = (r, w')) : FinalP P.dev P.ign P.cx P.Pg w0 r w' := by
   have hF := frameProvider_of_progOK hP
-  have hR0 : RoutOK P (X0 P) (mainCfg P) (mainK P.fp P.p P.dyn) none := .main rfl rfl rfl rfl rfl rfl
-  have all := sound_all hP hC hF hI fuel (X0 P) _ _ _ hR0
+  have hR0 : RoutOK P (X0 P) (mainCfg P) (mainK P.fp P.p P.dyn P.strict) none := .main rfl rfl rfl rfl rfl rfl rfl
+  have all := sound_all hP hC hF hI hEnt fuel (X0 P) _ _ _ hR0
   obtain ⟨hexit, hshape⟩ := hmain
   simp only [mainOkC, Bool.or_eq_true] at hwm
-  have hrvm : (mainK P.fp P.p P.dyn).rv = true := rfl
+  have hrvm : (mainK P.fp P.p P.dyn P.strict).rv = true := by unfold mainK; split <;> rfl
   by_cases hret : hasReturn P.p.main = true
   · simp only [hret, if_true] at hshape
-    have key : ∀ n, wtR (mainK P.fp P.p P.dyn) false true n P.p.main = true → FinalP P.dev P.ign P.cx P.Pg w0 r w' := by
+    have key : ∀ n, wtR (mainK P.fp P.p P.dyn P.strict) false true n P.p.main = true → FinalP P.dev P.ign P.cx P.Pg w0 r w' := by
       intro n hw
       have g1 := all.ev _ _ _ _ _ _ _ [] [] [] _ _ _ hshape hw hev
       cases r with
@@ -211,7 +307,7 @@ theorem main_graph_of (P : PCtx) (hP : ProgOK P) (hC : CallPresent P) (hI : Call
     cases hshape with
     | ret hb he =>
       have hb' : Blk (X0 P).G _ [.ret] (.next 0) := hb
-      have key : ∀ n, wtR (mainK P.fp P.p P.dyn) false true n P.p.main = true → n ≤ 1 →
+      have key : ∀ n, wtR (mainK P.fp P.p P.dyn P.strict) false true n P.p.main = true → n ≤ 1 →
           FinalP P.dev P.ign P.cx P.Pg w0 r w' := by
         intro n hw hn
         have g1 := all.ev _ _ _ _ _ _ _ [] [] [] _ _ _ he hw hev
@@ -298,11 +394,11 @@ theorem runProg_of_final {D : Fail → Prop} {I : List Nat} {cx : Ctx} {p : Prog
       · exact key
 
 /-- the general statement, for a program context `P` built from a successful `genProg` -/
-theorem genProg_correct_of (P : PCtx) (hP : ProgOK P) (hC : CallPresent P) (hI : CallInv P)
+theorem genProg_correct_of (P : PCtx) (hP : ProgOK P) (hC : CallPresent P) (hI : CallInv P) (hEnt : CallEntry P)
     (hmain : P.Pg.main[0]? = some ({} : Block) ∧
       ShapeR P.Pg.main { version := P.version, inSub := false, callees := calleesOf P.p, markIndex := false }
         (if hasReturn P.p.main then P.p.main else .ret (some P.p.main)) P.Pg.start 0 none)
-    (hwm : mainOkC P.fp P.p P.dyn = true) (w0 : World) (fuel : Nat) :
+    (hwm : mainOkC P.fp P.p P.dyn P.strict = true) (w0 : World) (fuel : Nat) :
     match Src.runProg P.cx P.p fuel w0 with
     | .done v w => ∃ n, (∃ w'', SameW P.ign w w'' ∧ runP P.cx P.Pg n { world := w0 } = .done v w'')
                     ∨ ∃ f, P.dev f ∧ runP P.cx P.Pg n { world := w0 } = .fail f
@@ -310,7 +406,7 @@ theorem genProg_correct_of (P : PCtx) (hP : ProgOK P) (hC : CallPresent P) (hI :
     | .fail _ => ∃ n f, runP P.cx P.Pg n { world := w0 } = .fail f
     | .outOfFuel => True := by
   rcases hev : eval ⟨P.cx, P.p, none⟩ fuel P.p.main w0 with ⟨r, w'⟩
-  exact runProg_of_final hev (main_graph_of P hP hC hI hmain hwm w0 fuel hev)
+  exact runProg_of_final hev (main_graph_of P hP hC hI hEnt hmain hwm w0 fuel hev)
 
 /-- only the stack limit is a permitted deviation when no run-time addressed slots are used -/
 theorem only_ovf {α : Prop} {cx : Ctx} {Pg : PProg} {n : Nat} {w0 : World}
@@ -341,8 +437,9 @@ theorem genProg_correct (version : Nat) (p : Prog) (hf : inFragmentR p = true)
   have hwm : mainOkC false p false = true := by
     simp only [inFragmentR, inFragmentC, Bool.and_eq_true] at hf
     exact hf.1.1.1
-  have key := genProg_correct_of ⟨cx, p, Pg, version, false, false⟩ (progOK_of_gen cx hg hf)
-    (callPresent_of_gen cx hg) (callInv_scratch rfl) (genProg_main hg) hwm w0 fuel
+  have hP := progOK_of_gen (strict := false) cx hg hf
+  have key := genProg_correct_of ⟨cx, p, Pg, version, false, false, false⟩ hP
+    (callPresent_of_gen cx hg) (callInv_scratch rfl rfl) (callEntry_plain hP rfl) (genProg_main hg) hwm w0 fuel
   revert key
   cases Src.runProg cx p fuel w0 with
   | done v w => intro ⟨n, h⟩; exact ⟨n, only_ovf h⟩
@@ -376,8 +473,9 @@ theorem genProg_correct_dyn_partial (version : Nat) (p : Prog) (hf : inFragmentC
   have hwm : mainOkC false p true = true := by
     simp only [inFragmentC, Bool.and_eq_true] at hf
     exact hf.1.1.1
-  have key := genProg_correct_of ⟨cx, p, Pg, version, false, true⟩ (progOK_of_gen cx hg hf)
-    (callPresent_of_gen cx hg) (callInv_scratch rfl) (genProg_main hg) hwm w0 fuel
+  have hP := progOK_of_gen (strict := false) cx hg hf
+  have key := genProg_correct_of ⟨cx, p, Pg, version, false, true, false⟩ hP
+    (callPresent_of_gen cx hg) (callInv_scratch rfl rfl) (callEntry_plain hP rfl) (genProg_main hg) hwm w0 fuel
   revert key
   cases Src.runProg cx p fuel w0 with
   | done v w =>
@@ -387,6 +485,49 @@ theorem genProg_correct_dyn_partial (version : Nat) (p : Prog) (hf : inFragmentC
     · exact .inl hr
     · exact .inr (.inl hr)
     · exact .inr (.inr hr)
+  | fail f => cases f <;> (intro key; exact key)
+  | outOfFuel => intro _; trivial
+
+/-- **By-reference parameters (stage 3), scratch-slot convention.**
+
+    As `genProg_correct`, for the fragment `inFragmentC false p true true`: parameters of either
+    kind, `vloads` / `vstores` under the by-reference discipline R9 of `Models/FragmentR.lean`:
+    they dereference a by-reference parameter of the routine they occur in; no tree stores directly
+    into a by-reference parameter slot; what a call passes for a by-reference parameter is
+    `index s` (`s < 256`, no parameter slot of any routine) or the caller's own by-reference
+    parameter (forwarding); no by-value parameter slot is a by-reference parameter slot; the
+    generic `loads` / `stores` do not occur.  Then every value that reaches the generated `loads` /
+    `stores` is a slot number `< 256` (`Proofs/C02GenValid.lean`: the reference cells of all
+    active routines hold valid references throughout the run), so the range check of the AVM never
+    fails where the source semantics succeeds: the only permitted deviation is the operand-stack
+    limit, as for by-value parameters.  Recursion is allowed. -/
+theorem genProg_correct_ref (version : Nat) (p : Prog) (hf : inFragmentC false p true true = true)
+    (Pg : PProg) (hg : genProg version false p = .ok Pg)
+    (cx : Ctx) (w0 : World) (fuel : Nat) :
+    match Src.runProg cx p fuel w0 with
+    | .done v w => ∃ n, (∃ w', SameW [] w w' ∧ runP cx Pg n { world := w0 } = .done v w')
+                    ∨ runP cx Pg n { world := w0 } = .fail (.logic "stack overflow")
+    | .fail (.unmodelled _) => True
+    | .fail _ => ∃ n f, runP cx Pg n { world := w0 } = .fail f
+    | .outOfFuel => True := by
+  have hfr := hf
+  simp only [inFragmentC, Bool.and_eq_true, List.all_eq_true] at hfr
+  have hwm : mainOkC false p true true = true := hfr.1.1.1
+  let P : PCtx := ⟨cx, p, Pg, version, false, true, true⟩
+  have hP : ProgOK P := progOK_of_gen cx hg hf
+  have hall : ∀ g, PresentT P g := by
+    intro g sd hsd
+    obtain ⟨r, _, hl⟩ := genSubs_lookup p.subs Pg.subs (genProg_subs hg) g sd hsd
+    simp only [Present, P, hl, Option.isSome_some]
+  have hC : ValCtx p true (PresentT P) :=
+    valCtx_of (P := P) (fun f sd hsd _ => hfr.1.1.2 sd (List.mem_of_find?_eq_some hsd)) (fun _ _ _ _ g _ => hall g)
+  have hkv : ∀ X cfg K cur, RoutOK P X cfg K cur → KV P.p (PresentT P) X.act K :=
+    fun X cfg K cur hR => kv_of (P := P) rfl (fun g _ => hall g) (fun _ _ _ _ g _ => hall g) hR
+  have key := genProg_correct_of P hP (callPresent_of_gen cx hg) (callInv_ref rfl hC hkv) (callEntry_ref rfl hC hkv)
+    (genProg_main hg) hwm w0 fuel
+  revert key
+  cases Src.runProg cx p fuel w0 with
+  | done v w => intro ⟨n, h⟩; exact ⟨n, only_ovf h⟩
   | fail f => cases f <;> (intro key; exact key)
   | outOfFuel => intro _; trivial
 
@@ -417,12 +558,13 @@ theorem genProg_correct_fp (version : Nat) (p : Prog) (hf : inFragmentC true p =
   have hwm : mainOkC true p false = true := by
     simp only [inFragmentC, Bool.and_eq_true] at hf
     exact hf.1.1.1
-  have key := genProg_correct_of ⟨cx, p, Pg, version, true, false⟩ (progOK_of_gen cx hg hf)
+  have hP := progOK_of_gen (strict := false) cx hg hf
+  have key := genProg_correct_of ⟨cx, p, Pg, version, true, false, false⟩ hP
     (callPresent_of_gen cx hg)
-    (callInv_fp (P := ⟨cx, p, Pg, version, true, false⟩) rfl rfl hf (fun f sd hsd => by
+    (callInv_fp (P := ⟨cx, p, Pg, version, true, false, false⟩) rfl rfl hf (fun f sd hsd => by
       obtain ⟨r, _, hl⟩ := genSubs_lookup p.subs Pg.subs (genProg_subs hg) f sd hsd
       simp only [Present, hl, Option.isSome_some]))
-    (genProg_main hg) hwm w0 fuel
+    (callEntry_plain hP rfl) (genProg_main hg) hwm w0 fuel
   revert key
   cases Src.runProg cx p fuel w0 with
   | done v w => intro ⟨n, h⟩; exact ⟨n, only_ovf h⟩
@@ -560,5 +702,57 @@ theorem fp_reenters_counterexample :
     ∃ Pg w w', inFragmentC true wrongReentersProg = false ∧ genProg 8 true wrongReentersProg = .ok Pg ∧
       Src.runProg {} wrongReentersProg 60 = .done (.u 0) w ∧ runP {} Pg 1000 {} = .done (.u 6) w' :=
   ⟨_, _, _, by decide, rfl, rfl, rfl⟩
+
+/-! ### by-reference parameters (stage 3) -/
+
+/-- `inc(ref x) : x := x + 1`;  `fwd(ref y) : inc(y)` (forwards its reference);
+    main: `v := 7; fwd(&v); v` -/
+def refProg : Prog :=
+  { subs := [{ id := 0, name := "inc", params := [(.ref, 1)], hasRet := false,
+               body := .prim "vstores" [] [.load 1, .prim "+" [] [.prim "vloads" [] [.load 1], .int 1]],
+               locals := [1], reenters := [] },
+             { id := 1, name := "fwd", params := [(.ref, 2)], hasRet := false,
+               body := .call 0 [.load 2], locals := [2], reenters := [] }],
+    main := .seq [.store 5 (.int 7), .call 1 [.index 5], .load 5] }
+
+example : inFragmentC false refProg true true = true := by decide
+example : stageOf refProg false = 3 := by decide
+example : ∃ Pg, genProg 6 false refProg = .ok Pg := ⟨_, rfl⟩
+example : ∃ w, Src.runProg {} refProg 30 = .done (.u 8) w := ⟨_, rfl⟩
+example : ∃ Pg w, genProg 6 false refProg = .ok Pg ∧ runP {} Pg 200 {} = .done (.u 8) w := ⟨_, _, rfl, rfl⟩
+
+/-- a recursive routine with a by-reference parameter: `down(n, ref acc) : if n == 0 return;
+    acc := acc + n; down(n - 1, acc)`;  main: `s := 0; down(2, &s); s`  (3) -/
+def refRecProg : Prog :=
+  { subs := [{ id := 0, name := "down", params := [(.val, 1), (.ref, 2)], hasRet := false,
+               body := .seq [.ite (.prim "==" [] [.load 1, .int 0]) (.ret none) none,
+                             .prim "vstores" [] [.load 2, .prim "+" [] [.prim "vloads" [] [.load 2], .load 1]],
+                             .call 0 [.prim "-" [] [.load 1, .int 1], .load 2]],
+               locals := [1, 2], reenters := [0] }],
+    main := .seq [.store 5 (.int 0), .call 0 [.int 2, .index 5], .load 5] }
+
+example : inFragmentC false refRecProg true true = true := by decide
+example : ∃ w, Src.runProg {} refRecProg 40 = .done (.u 3) w := ⟨_, rfl⟩
+example : (match genProg 6 false refRecProg with
+    | .ok Pg => (match runP {} Pg 150 {} with | .done v _ => v == .u 3 | _ => false)
+    | .error _ => false) = true := by decide +kernel
+
+/-- The discipline is NEEDED ("no reference to a parameter slot is created"): `bad(ref x)` is called
+    with a reference to its own parameter cell (slot 1), overwrites the cell through the reference
+    with 300 and dereferences again.  The source semantics reads the abstract cell 300 (value 0);
+    the generated `loads` fails its range check.  The program is in the partial fragment
+    (`genProg_correct_dyn_partial` permits exactly this deviation) and outside the strict one. -/
+def selfRefProg : Prog :=
+  { subs := [{ id := 0, name := "bad", params := [(.ref, 1)], hasRet := true,
+               body := .seq [.prim "vstores" [] [.load 1, .int 300], .prim "vloads" [] [.load 1]],
+               locals := [1], reenters := [] }],
+    main := .call 0 [.index 1] }
+
+theorem ref_discipline_counterexample :
+    ∃ Pg w, inFragmentC false selfRefProg true = true ∧ inFragmentC false selfRefProg true true = false ∧
+      genProg 6 false selfRefProg = .ok Pg ∧
+      Src.runProg {} selfRefProg 30 = .done (.u 0) w ∧
+      runP {} Pg 200 {} = .fail (.logic "loads slot out of range") :=
+  ⟨_, _, by decide, by decide, rfl, rfl, rfl⟩
 
 end PyTealV.Proofs.C02Gen
